@@ -15,10 +15,14 @@ import Blue.Proofs.Wavelet
 import Blue.Proofs.PsiWt
 import Blue.Proofs.PsiWtCsa
 import Blue.Proofs.PsiDoc
+import Blue.Proofs.CsaExists
+import Blue.Proofs.C19Audit
 /-! # Property C19 — the compressed text index answers every query as the uncompressed text would;
     bit vectors answer access/rank/select as a plain bit array
 
-Property theorems only (helper lemmas live in `Blue/Proofs/{BitVec,BitVecLaws,Csa,CsaDoc}.lean`).
+Property theorems only (helper lemmas live in `Blue/Proofs/{BitVec,BitVecLaws,Csa,CsaDoc}.lean` and the
+proof modules imported above; `CsaExists` and `C19Audit` hold what an independent audit of these
+statements asked for, `docs/AUDIT_REPORT.md`).
 
 **The claim is PARTIAL.**  What is proved is the *algorithmic* layer, about executable models that
 the correspondence check ties to the real `scrunch` crate:
@@ -40,7 +44,10 @@ the Rust code and that the correspondence run executes on the inputs the real co
   of `rrr` and `cf_rrr` with their `p` / `r` / class / offset arrays and select samples),
   `BvSparse.lean` (the B-tree of `sparse::BitVector`): `access` / `rank` / `select` / `select0`
   computed ON THE ENCODED FORM equal the reference on the decoded `List Bool`, for every bit
-  pattern and every argument;
+  pattern and every argument (out of range: `None` on both sides).  `access_rank` is the one query
+  on which the encodings differ from each other, at the single argument `x = len`: `None` for `rrr`
+  and the reference, `Some((false, total))` for `cf_rrr` and `sparse`, as the code returns
+  (`access_rank_vs_reference`, `access_rank_at_len`);
 * `Sampled.lean` (`SampledArray`, `SampledSuffixArray`, `SampledInverseSuffixArray`): the ψ-walk
   returns the exact suffix array for every stride and every text length, the sampled inverse is
   exact at the record boundaries, so `search` / `retrieve` through the samples are the ones over
@@ -54,9 +61,20 @@ the Rust code and that the correspondence run executes on the inputs the real co
 
 * `PsiWt.lean` (`WaveletTreePsi`: rows = runs of equal 2-symbol context, cells, `y_key` / `y_value`,
   `lookup`, `lower_bound` / `upper_bound` / `constrain` on closed ranges) and `PsiDoc.lean`
-  (`backwards_search` / `count` / `search` / `retrieve` of `CompressedDocument` with EVERY component
-  as the code has it): `lookup` is ψ, `constrain` of a symbol's whole column is the reference
-  `constrain`, and the document's answers on code points equal the plain scan of the text.
+  (`backwards_search` / `count` / `search` / `retrieve` of `CompressedDocument` with the ALGORITHM of
+  every component as the code has it): `lookup` is ψ, `constrain` of a symbol's whole column is the
+  reference `constrain`, and the document's answers on code points equal the plain scan of the text.
+  "Algorithm of every component", not "encoding of every component": inside the `PsiDoc`, `PsiWt`,
+  `Sigma` and `Sampled` models the inner bit vectors (`y_key`, `Sigma`'s buckets, the record
+  boundaries, the presence vector of a `SampledArray`) are decoded `List Bool`s with the reference
+  `rank` / `select`, and every row's wavelet tree is its symbol list with the reference `rank_q` /
+  `select_q`.  That the encoded forms answer the same is proved separately (`sparse_in_the_index`,
+  four vectors; `wavelet_tree_is_reference` + `psi_asks_occurring_symbols`) and enters the document
+  theorems by substitution of equals, not through one executable model that runs the encoded forms
+  inside the document (the correspondence run does exercise that composition: the real document).
+* `CsaExists.lean`: the hypothesis "`l` is the strictly increasing arrangement of the suffixes" is
+  satisfiable for every text by exactly one `l` (`suffix_array_exists_unique`), so the document
+  theorems can be — and are, `compressed_document_exists` — stated without it.
 
 What is still **not** proved and is tied by correspondence only (harness `c19.rs`, every run):
 
@@ -164,6 +182,21 @@ theorem count_spec {l : List (List Nat)} (hs : Sorted l) (rangeFor : Nat → Nat
 theorem sorted_of_suffixes (T : List Nat) (l : List (List Nat)) (hperm : l.Perm (suffixes T))
     (hsorted : l.Pairwise (fun a b => lexLt a b = true)) : Sorted l :=
   Blue.Csa.sorted_of_suffixes T l hperm hsorted
+
+/-- the hypothesis pair `hperm` / `hsorted` of the index theorems is satisfiable for EVERY text … -/
+theorem sa_exists (T : List Nat) :
+    ∃ l : List (List Nat), l.Perm (suffixes T) ∧ l.Pairwise (fun a b => lexLt a b = true) :=
+  Blue.Csa.sa_exists T
+
+/-- … by exactly one arrangement, `sortedSuffixes T` (insertion sort of the suffixes by `lexLt`: a
+    specification-side function, NOT a model of `sais.rs`).  So the index theorems speak about THE
+    suffix array of the text, and what stays a hypothesis about the code is `SA-IS output =
+    sortedSuffixes T` (decided per input by the correspondence run) -/
+theorem suffix_array_exists_unique (T : List Nat) :
+    ((sortedSuffixes T).Perm (suffixes T) ∧ (sortedSuffixes T).Pairwise (fun a b => lexLt a b = true))
+    ∧ ∀ l : List (List Nat), l.Perm (suffixes T) → l.Pairwise (fun a b => lexLt a b = true) →
+        l = sortedSuffixes T :=
+  ⟨Blue.Csa.sortedSuffixes_spec T, fun l h1 h2 => Blue.Csa.sa_unique T l h1 h2⟩
 
 /-- `count` is the number of text positions at which the needle occurs — a plain scan -/
 theorem count_occurrences (T : List Nat) {l : List (List Nat)} (hperm : l.Perm (suffixes T))
@@ -274,11 +307,14 @@ theorem rrr_word_select (ch : List Bool) (x : Nat) (h : ch.length ≤ 63) :
       ∧ Blue.Rrr.select0 (Blue.BitArr.ofBits ch) x = select0 (ch ++ List.replicate (63 - ch.length) false) x :=
   ⟨Blue.Rrr.select1_ofBits ch x h, Blue.Rrr.select0_ofBits ch x h⟩
 
-/-- **rrr**: for every bit pattern, `construct` (8 words per block, select sample 64) succeeds and the
-    queries computed on the six encoded arrays answer exactly as the plain bit array, at every
-    argument (out of range: `None` on both sides) -/
+/-- **rrr**: for every bit pattern, `construct` (8 words per block, select sample 64) succeeds
+    (first conjunct: `construct_from_words` does not take its error path; the model's total
+    `construct` is that result) and the queries computed on the six encoded arrays answer exactly as
+    the plain bit array, at every argument (out of range: `None` on both sides; `access_rank` is
+    defined for `x < len` only, like the reference's, see `access_rank_vs_reference`) -/
 theorem rrr_is_bit_array (bits : List Bool) (x : Nat) :
-    Blue.Rrr.len (Blue.Rrr.construct bits) = bits.length
+    Blue.Rrr.constructFromWords bits.length (Blue.Rrr.wordsOf bits) = some (Blue.Rrr.construct bits)
+      ∧ Blue.Rrr.len (Blue.Rrr.construct bits) = bits.length
       ∧ Blue.Rrr.access (Blue.Rrr.construct bits) x = access bits x
       ∧ Blue.Rrr.rank (Blue.Rrr.construct bits) x = rank bits x
       ∧ Blue.Rrr.rank0 (Blue.Rrr.construct bits) x = rank0 bits x
@@ -286,28 +322,35 @@ theorem rrr_is_bit_array (bits : List Bool) (x : Nat) :
       ∧ Blue.Rrr.vselect0 (Blue.Rrr.construct bits) x = select0 bits x
       ∧ Blue.Rrr.accessRank (Blue.Rrr.construct bits) x
           = (if x < bits.length then some (bits.getD x false, (bits.take x).count true) else none) :=
-  ⟨Blue.Rrr.len_eq bits, Blue.Rrr.access_eq Blue.Rrr.wordSpec bits x, Blue.Rrr.rank_eq Blue.Rrr.wordSpec bits x,
+  ⟨Blue.Rrr.construct_ok bits, Blue.Rrr.len_eq bits, Blue.Rrr.access_eq Blue.Rrr.wordSpec bits x, Blue.Rrr.rank_eq Blue.Rrr.wordSpec bits x,
    Blue.Rrr.rank0_eq Blue.Rrr.wordSpec bits x, Blue.Rrr.select_eq Blue.Rrr.wordSpec bits x,
    Blue.Rrr.vselect0_eq Blue.Rrr.wordSpec bits x, Blue.Rrr.accessRank_eq Blue.Rrr.wordSpec bits x⟩
 
-/-- **cf_rrr** (23 words per block = its select sample of 1449 bits), likewise; `select_helper`
-    never reaches its `assert!(rank <= x)` nor the underflow of `select0`'s `load_rank` -/
+/-- **cf_rrr** (23 words per block = its select sample of 1449 bits), likewise (the model's
+    `construct` is total because the code's has no error path for a `&[bool]`); `rank0` is the trait
+    default `Some(x - self.rank(x)?)`, which `cf_rrr` does not override; `access_rank` is ALSO defined
+    at `x = len` (`(false, total)`: the `index == len` branch), where the reference's is not, see
+    `access_rank_vs_reference`; `select_helper` never reaches its `assert!(rank <= x)` nor the
+    underflow of `select0`'s `load_rank` -/
 theorem cf_rrr_is_bit_array (bits : List Bool) (x : Nat) :
     Blue.RrrCf.len (Blue.RrrCf.construct bits) = bits.length
       ∧ Blue.RrrCf.access (Blue.RrrCf.construct bits) x = access bits x
       ∧ Blue.RrrCf.rank (Blue.RrrCf.construct bits) x = rank bits x
+      ∧ (Blue.RrrCf.rank (Blue.RrrCf.construct bits) x).map (fun r => x - r) = rank0 bits x
       ∧ Blue.RrrCf.select (Blue.RrrCf.construct bits) x = select bits x
       ∧ Blue.RrrCf.select0 (Blue.RrrCf.construct bits) x = select0 bits x
       ∧ Blue.RrrCf.accessRank (Blue.RrrCf.construct bits) x
           = (if x ≤ bits.length then some (bits.getD x false, (bits.take x).count true) else none)
       ∧ (∀ zero, Blue.RrrCf.selectRes (Blue.RrrCf.construct bits) zero x ≠ Blue.RrrCf.Res.panic) :=
   ⟨Blue.RrrCf.len_construct bits, Blue.RrrCf.access_construct Blue.Rrr.wordSpec bits x,
-   Blue.RrrCf.rank_construct Blue.Rrr.wordSpec bits x, Blue.RrrCf.select_construct Blue.Rrr.wordSpec bits x,
+   Blue.RrrCf.rank_construct Blue.Rrr.wordSpec bits x, Blue.C19Audit.cf_rank0 bits x,
+   Blue.RrrCf.select_construct Blue.Rrr.wordSpec bits x,
    Blue.RrrCf.select0_construct Blue.Rrr.wordSpec bits x, Blue.RrrCf.accessRank_construct Blue.Rrr.wordSpec bits x,
    fun zero => by rw [Blue.RrrCf.selectRes_construct Blue.Rrr.wordSpec]; intro h; cases h⟩
 
-/-- **sparse**: for every branch factor the code admits and every bit pattern, `from_indices` over the
-    set positions succeeds and the B-tree answers exactly as the plain bit array -/
+/-- **sparse**: for every branch factor the code allows (4..255) and every bit pattern, `from_indices` over the
+    set positions succeeds and the B-tree answers exactly as the plain bit array (`access_rank` also
+    at `x = len`, `(false, total)`, where the reference's is `None`: `access_rank_vs_reference`) -/
 theorem sparse_is_bit_array (branch : Nat) (bits : List Bool) (hb1 : 4 ≤ branch) (hb2 : branch < 256)
     (hlen : bits.length ≤ Blue.BvSparse.u64Max) :
     (Blue.BvSparse.build branch bits.length (Blue.BvSparse.indicesOf bits)).isSome = true
@@ -322,9 +365,37 @@ theorem sparse_is_bit_array (branch : Nat) (bits : List Bool) (hb1 : 4 ≤ branc
         ∧ Blue.BvSparse.select0 t x = select0 bits x :=
   Blue.BvSparse.bits_theorems hb1 hb2 hlen
 
-/-- the three vectors the index stores through `from_indices` directly (presence vector of a
-    `SampledArray`, branch 128; `Sigma`'s buckets, branch 16; the record boundaries, branch 16)
-    answer on the sparse tree like the plain bit arrays the index models use -/
+/-- `access_rank` against the REFERENCE `access_rank` (`Some((self.access(x)?, self.rank(x)?))`,
+    `refAccessRank`): `rrr` equals it at every argument; `cf_rrr` and `sparse` equal it at every
+    argument EXCEPT `x = len`, where they answer `Some((false, number of set bits))` -/
+theorem access_rank_vs_reference (bits : List Bool) (x : Nat) :
+    Blue.Rrr.accessRank (Blue.Rrr.construct bits) x = refAccessRank bits x
+    ∧ Blue.RrrCf.accessRank (Blue.RrrCf.construct bits) x
+        = (if x = bits.length then some (false, bits.count true) else refAccessRank bits x)
+    ∧ (∀ branch t, 4 ≤ branch → branch < 256 → bits.length ≤ Blue.BvSparse.u64Max →
+        Blue.BvSparse.build branch bits.length (Blue.BvSparse.indicesOf bits) = some t →
+        Blue.BvSparse.accessRank t x
+          = (if x = bits.length then some (false, bits.count true) else refAccessRank bits x)) :=
+  Blue.C19Audit.accessRank_vs_reference bits x
+
+/-- … spelled out at `x = len`: `None` for the reference and `rrr`, `Some((false, total))` for `cf_rrr`
+    and `sparse` — the encodings agree with the plain bit array on `access`, `rank`, `rank0`, `select`,
+    `select0` everywhere and differ from EACH OTHER on `access_rank(len)`, as the code does.
+    (`refAccessRank` in closed form: `Blue.BitVec.refAccessRank_eq`.) -/
+theorem access_rank_at_len (bits : List Bool) :
+    refAccessRank bits bits.length = none
+    ∧ Blue.Rrr.accessRank (Blue.Rrr.construct bits) bits.length = none
+    ∧ Blue.RrrCf.accessRank (Blue.RrrCf.construct bits) bits.length = some (false, bits.count true)
+    ∧ (∀ branch t, 4 ≤ branch → branch < 256 → bits.length ≤ Blue.BvSparse.u64Max →
+        Blue.BvSparse.build branch bits.length (Blue.BvSparse.indicesOf bits) = some t →
+        Blue.BvSparse.accessRank t bits.length = some (false, bits.count true)) :=
+  Blue.C19Audit.accessRank_at_len bits
+
+/-- the FOUR vectors the index stores through `from_indices` directly (presence vector of a
+    `SampledArray`, branch 128; `Sigma`'s buckets, branch 16; the record boundaries, branch 16; the
+    `y_key` vector of the wavelet-tree ψ, branch 128 in the code, proved for every branch factor 4..255)
+    answer on the sparse tree like the plain bit arrays the index models use — each for the queries
+    the index asks of it -/
 theorem sparse_in_the_index :
     (∀ (offs : List Nat) (last : Nat), offs.Pairwise (· < ·) → (∀ o ∈ offs, o ≤ last) → last + 1 ≤ Blue.BvSparse.u64Max →
       ∃ t, Blue.BvSparse.build Blue.Sampled.presentBranch (last + 1) offs = some t ∧ ∀ x,
@@ -336,10 +407,17 @@ theorem sparse_in_the_index :
     ∧ (∀ (n : Nat) (rb : List Nat), Blue.CsaDoc.admissible n rb = true → n ≤ Blue.BvSparse.u64Max →
       ∃ t, Blue.BvSparse.build Blue.Sampled.boundaryBranch n (Blue.SparseUses.sparseBoundaries rb) = some t ∧ ∀ x,
         Blue.BvSparse.rank t x = rank (Blue.CsaDoc.boundaryBits n rb) x
-        ∧ Blue.BvSparse.select t x = select (Blue.CsaDoc.boundaryBits n rb) x) :=
+        ∧ Blue.BvSparse.select t x = select (Blue.CsaDoc.boundaryBits n rb) x)
+    ∧ (∀ (syms psi : List Nat) (w : Blue.PsiWt.WtPsi), Blue.PsiWt.Good syms psi →
+        Blue.PsiWt.construct syms psi = some w → psi.length ≤ Blue.BvSparse.u64Max →
+        ∀ branch, 4 ≤ branch → branch < 256 →
+      ∃ ykeys t, w.ykey = Blue.Sampled.presentBits psi.length ykeys
+        ∧ Blue.BvSparse.build branch psi.length ykeys = some t ∧ ∀ x,
+          Blue.BvSparse.rank t x = rank w.ykey x ∧ Blue.BvSparse.select t x = select w.ykey x) :=
   ⟨fun offs last h1 h2 h3 => Blue.SparseUses.sampled_present offs last h1 h2 h3,
    fun text h => Blue.SparseUses.sigma_columns text h,
-   fun n rb h1 h2 => Blue.SparseUses.record_boundaries n rb h1 h2⟩
+   fun n rb h1 h2 => Blue.SparseUses.record_boundaries n rb h1 h2,
+   fun _ _ w hg hw hlen branch hb1 hb2 => Blue.C19Audit.psi_ykey hg w hw hlen branch hb1 hb2⟩
 
 /-- the constants of the encodings are the ones in the source (regenerated every run) -/
 theorem encodings_from_source :
@@ -477,7 +555,10 @@ theorem wavelet_tree_is_reference (cb : Blue.Wavelet.CodeBook) (text : List Nat)
     fun q hq x => ⟨Blue.Wavelet.rankQ_eq cb text hpf hin w hw q hq x, Blue.Wavelet.selectQ_eq cb text hpf hin w hw q hq x⟩⟩
 
 
-/-! ## the wavelet-tree ψ and the compressed document with every component as the code has it -/
+/-! ## the wavelet-tree ψ and the compressed document with the algorithm of every component as the code has it
+
+(inner bit vectors and row trees are decoded lists with the reference `rank` / `select` / `rank_q` /
+`select_q`; the encoded forms are the subject of `sparse_in_the_index` and `wavelet_tree_is_reference`) -/
 
 /-- `WaveletTreePsi::construct` succeeds on every `Good` input (ψ a permutation, first symbols
     non-decreasing, ψ increasing inside a column), `lookup(idx)` is `psi[idx]` at every rank, and
@@ -518,7 +599,8 @@ theorem wavelet_psi_subrange_not_clamped :
     ∧ Blue.PsiWt.refConstrain [4, 0, 1, 2, 3] (1, 3) (0, 3) = (1, 3)
     ∧ Blue.PsiWt.goodB [0, 1, 1, 1, 1] [4, 0, 1, 2, 3] = true := Blue.PsiWt.subrange_not_clamped
 
-/-- HEADLINE, every component as in `CompressedDocument`: for every text over any code points, given
+/-- HEADLINE, the algorithm of every component as in `CompressedDocument` (inner bit vectors / row
+    trees as decoded lists, see the section comment): for every text over any code points, given
     only that `l` is the strictly increasing arrangement of the suffixes of the translated text (what
     SA-IS must deliver): the wavelet-tree ψ exists; `count` (Sigma ranges, closed-range backward search
     through `WaveletTreePsi::constrain`) is the number of occurrences of the needle in the text … -/
@@ -556,6 +638,50 @@ theorem compressed_retrieve_is_record (text : List Nat) {l : List (List Nat)}
       ∧ Blue.PsiDoc.retrieve (Blue.Sigma.sigOf text) (Blue.PsiWt.symsOf l) w si (Blue.CsaDoc.boundaryBits text.length rb) r
           = some ((text.drop rb[r]).take (rb[r + 1]?.getD text.length - rb[r])) :=
   Blue.PsiDoc.retrieve_is_record text hperm hsorted w hw rb hadm r hr
+
+/-- `Document::len` (`psi.len() - 1`, the expression the driver renders as `len=`) is the length of
+    the original text; `count` of the EMPTY needle is the length of the text, hence `count` is the
+    plain scan's for EVERY needle; `search` of the empty needle reports every position, ascending -/
+theorem compressed_len_and_empty_needle (text : List Nat) {l : List (List Nat)}
+    (hperm : l.Perm (suffixes (Blue.Sigma.translated text)))
+    (hsorted : l.Pairwise (fun a b => lexLt a b = true)) (w : Blue.PsiWt.WtPsi)
+    (hw : Blue.PsiWt.construct (Blue.PsiWt.symsOf l) (Blue.PsiWt.psiOf (Blue.Sigma.translated text) l) = some w) :
+    Blue.PsiDoc.docLen w = text.length
+    ∧ Blue.PsiDoc.count (Blue.PsiWt.symsOf l) w (Blue.Sigma.rangeForT (Blue.Sigma.sigOf text)) [] = .ok text.length
+    ∧ (∀ needle, Blue.PsiDoc.count (Blue.PsiWt.symsOf l) w (Blue.Sigma.rangeForT (Blue.Sigma.sigOf text)) needle
+          = .ok (((List.range text.length).filter (fun k => needle.isPrefixOf (text.drop k))).length))
+    ∧ (∀ st, ∃ ssa ps, Blue.Sampled.ssaConstruct st (Blue.Sampled.saList l) = some ssa
+          ∧ Blue.PsiDoc.search (Blue.PsiWt.symsOf l) w (Blue.Sigma.rangeForT (Blue.Sigma.sigOf text)) ssa [] = .ok ps
+          ∧ ps.Pairwise (· ≤ ·) ∧ ∀ k, k ∈ ps ↔ k < text.length) :=
+  ⟨Blue.PsiDoc.docLen_eq text hperm hsorted w hw, Blue.PsiDoc.count_empty text hperm hsorted w hw,
+   fun needle => Blue.PsiDoc.count_is_scan_all text hperm hsorted w hw needle,
+   fun st => Blue.PsiDoc.search_empty text hperm hsorted w hw st⟩
+
+/-- the four `compressed_*` theorems with NO hypothesis left: for every text over any code points the
+    sorted arrangement `l` of the suffixes of the translated text exists (exactly one:
+    `sortedSuffixes`), the wavelet-tree ψ `w` built from it exists, the sampled suffix array exists
+    for every stride and the sampled inverse for every admissible division into records, and over
+    them `Document::len` is the length of the text, `count` is the plain scan's for every needle
+    (empty, occurring or absent), `search` reports exactly the occurrence positions in ascending
+    order and `retrieve(r)` is record `r`.  What this does NOT say is that `sais.rs` computes this
+    `l` (decided per input by the correspondence run) -/
+theorem compressed_document_exists (text : List Nat) :
+    ∃ l w, l = sortedSuffixes (Blue.Sigma.translated text)
+      ∧ (∀ l', l'.Perm (suffixes (Blue.Sigma.translated text)) →
+            l'.Pairwise (fun a b => lexLt a b = true) → l' = l)
+      ∧ Blue.PsiWt.construct (Blue.PsiWt.symsOf l) (Blue.PsiWt.psiOf (Blue.Sigma.translated text) l) = some w
+      ∧ Blue.PsiDoc.docLen w = text.length
+      ∧ (∀ needle, Blue.PsiDoc.count (Blue.PsiWt.symsOf l) w (Blue.Sigma.rangeForT (Blue.Sigma.sigOf text)) needle
+            = .ok (((List.range text.length).filter (fun k => needle.isPrefixOf (text.drop k))).length))
+      ∧ (∀ st needle, ∃ ssa ps, Blue.Sampled.ssaConstruct st (Blue.Sampled.saList l) = some ssa
+            ∧ Blue.PsiDoc.search (Blue.PsiWt.symsOf l) w (Blue.Sigma.rangeForT (Blue.Sigma.sigOf text)) ssa needle = .ok ps
+            ∧ ps.Pairwise (· ≤ ·) ∧ ∀ k, k ∈ ps ↔ (k < text.length ∧ needle <+: text.drop k))
+      ∧ (∀ rb, Blue.CsaDoc.admissible text.length rb = true → ∀ r (hr : r < rb.length),
+            ∃ si, Blue.Sampled.sisaConstruct l rb = some si
+              ∧ Blue.PsiDoc.retrieve (Blue.Sigma.sigOf text) (Blue.PsiWt.symsOf l) w si
+                  (Blue.CsaDoc.boundaryBits text.length rb) r
+                = some ((text.drop rb[r]).take (rb[r + 1]?.getD text.length - rb[r]))) :=
+  Blue.C19Audit.compressed_document_exists text
 
 /-! ## non-vacuity -/
 
@@ -602,6 +728,49 @@ example : (Blue.PsiWt.construct (Blue.PsiWt.symsOf exL) (Blue.PsiWt.psiOf [1, 2,
                Blue.PsiDoc.count (Blue.PsiWt.symsOf exL) w (Blue.CsaDoc.sigmaRange exL) [1, 2]))
     = some ([some 2, some 3, some 4, some 0, some 1], .ok (1, 2), .ok 2) := by decide
 
+
+/-! ### a real text over code points: `m i s s i` = 109 105 115 115 105
+
+    The hypotheses of the code-point and `compressed_*` theorems over `Sigma.translated` of a real
+    text, with the suffix arrangement COMPUTED (`sortedSuffixes`), not written down; then the
+    theorems instantiated at it, and the compressed document evaluated on it. -/
+def missi : List Nat := [109, 105, 115, 115, 105]
+abbrev missiL : List (List Nat) := sortedSuffixes (Blue.Sigma.translated missi)
+example : Blue.Sigma.translated missi = [2, 1, 3, 3, 1, 0] := by decide
+example : missiL = [[0], [1, 0], [1, 3, 3, 1, 0], [2, 1, 3, 3, 1, 0], [3, 1, 0], [3, 3, 1, 0]] := by decide
+example : missiL.Perm (suffixes (Blue.Sigma.translated missi))
+    ∧ missiL.Pairwise (fun a b => lexLt a b = true) := by decide
+example : sortedSuffixes [1, 2, 1, 2, 0] = exL := by decide
+/-- `compressed_count_is_scan` at this witness (its hypotheses decided) -/
+example : ∃ w, Blue.PsiWt.construct (Blue.PsiWt.symsOf missiL) (Blue.PsiWt.psiOf (Blue.Sigma.translated missi) missiL) = some w
+      ∧ Blue.PsiWt.len w = 6
+      ∧ ∀ needle, needle ≠ [] →
+          Blue.PsiDoc.count (Blue.PsiWt.symsOf missiL) w (Blue.Sigma.rangeForT (Blue.Sigma.sigOf missi)) needle
+            = .ok (((List.range 5).filter (fun k => needle.isPrefixOf (missi.drop k))).length) :=
+  compressed_count_is_scan missi (by decide) (by decide)
+/-- the document on it: `len`, then `count` of `si`, `s`, `is`, an absent code point, `ssi`, the empty needle -/
+example : (Blue.PsiWt.construct (Blue.PsiWt.symsOf missiL) (Blue.PsiWt.psiOf (Blue.Sigma.translated missi) missiL)).map
+    (fun w => (Blue.PsiDoc.docLen w,
+      [[115, 105], [115], [105, 115], [110], [115, 115, 105], []].map
+        (Blue.PsiDoc.count (Blue.PsiWt.symsOf missiL) w (Blue.Sigma.rangeForT (Blue.Sigma.sigOf missi)))))
+    = some (5, [.ok 1, .ok 2, .ok 1, .ok 0, .ok 1, .ok 5]) := by decide
+/-- `search` (stride 2) of `s` and of the empty needle; `retrieve` of the two records `mi | ssi` -/
+example : (Blue.PsiWt.construct (Blue.PsiWt.symsOf missiL) (Blue.PsiWt.psiOf (Blue.Sigma.translated missi) missiL)).bind
+    (fun w => (Blue.Sampled.ssaConstruct 2 (Blue.Sampled.saList missiL)).bind (fun ssa =>
+      (Blue.Sampled.sisaConstruct missiL [0, 2]).map (fun si =>
+        (Blue.PsiDoc.search (Blue.PsiWt.symsOf missiL) w (Blue.Sigma.rangeForT (Blue.Sigma.sigOf missi)) ssa [115],
+         Blue.PsiDoc.search (Blue.PsiWt.symsOf missiL) w (Blue.Sigma.rangeForT (Blue.Sigma.sigOf missi)) ssa [],
+         Blue.PsiDoc.retrieve (Blue.Sigma.sigOf missi) (Blue.PsiWt.symsOf missiL) w si (Blue.CsaDoc.boundaryBits 5 [0, 2]) 0,
+         Blue.PsiDoc.retrieve (Blue.Sigma.sigOf missi) (Blue.PsiWt.symsOf missiL) w si (Blue.CsaDoc.boundaryBits 5 [0, 2]) 1))))
+    = some (.ok [2, 3], .ok [0, 1, 2, 3, 4], some [109, 105], some [115, 115, 105]) := by decide
+/-- `access_rank` at `x = len` on `1 0 1`: the reference and `rrr` have none, `cf_rrr` and `sparse` answer `(false, 2)` -/
+example : refAccessRank [true, false, true] 3 = none ∧ refAccessRank [true, false, true] 2 = some (true, 1)
+    ∧ (Blue.BvSparse.build 4 3 (Blue.BvSparse.indicesOf [true, false, true])).map (fun t => Blue.BvSparse.accessRank t 3)
+        = some (some (false, 2)) := by decide
+example : Blue.Rrr.accessRank (Blue.Rrr.construct [true, false, true]) 3 = none
+    ∧ Blue.RrrCf.accessRank (Blue.RrrCf.construct [true, false, true]) 3 = some (false, 2) :=
+  ⟨(access_rank_at_len [true, false, true]).2.1, (access_rank_at_len [true, false, true]).2.2.1⟩
+
 end Blue.Props.C19
 
 #print axioms Blue.Props.C19.partitionBy_spec
@@ -619,6 +788,8 @@ end Blue.Props.C19
 #print axioms Blue.Props.C19.backwardSearch_spec
 #print axioms Blue.Props.C19.count_spec
 #print axioms Blue.Props.C19.sorted_of_suffixes
+#print axioms Blue.Props.C19.sa_exists
+#print axioms Blue.Props.C19.suffix_array_exists_unique
 #print axioms Blue.Props.C19.count_occurrences
 #print axioms Blue.Props.C19.search_positions
 #print axioms Blue.Props.C19.sa_psi
@@ -635,6 +806,8 @@ end Blue.Props.C19
 #print axioms Blue.Props.C19.rrr_is_bit_array
 #print axioms Blue.Props.C19.cf_rrr_is_bit_array
 #print axioms Blue.Props.C19.sparse_is_bit_array
+#print axioms Blue.Props.C19.access_rank_vs_reference
+#print axioms Blue.Props.C19.access_rank_at_len
 #print axioms Blue.Props.C19.sparse_in_the_index
 #print axioms Blue.Props.C19.encodings_from_source
 #print axioms Blue.Props.C19.sampled_array_lookup
@@ -656,3 +829,5 @@ end Blue.Props.C19
 #print axioms Blue.Props.C19.compressed_count_is_scan
 #print axioms Blue.Props.C19.compressed_search_is_scan
 #print axioms Blue.Props.C19.compressed_retrieve_is_record
+#print axioms Blue.Props.C19.compressed_len_and_empty_needle
+#print axioms Blue.Props.C19.compressed_document_exists
